@@ -293,6 +293,20 @@ func checkEndpoint(name string, e *engine, tap []byte, peerGot [][]byte) (ck c12
 			}
 		}
 	}
+	errored := false
+	for _, f := range ck.findings {
+		errored = errored || f.key == "C12:conv:error-reported"
+	}
+	select {
+	case err := <-e.errCh:
+		errored = true
+		add("C12:conv:error-reported", fmt.Sprintf("ErrorChan: %v", err))
+	default:
+	}
+	if errored {
+		// what follows would only restate that the conversation was cut short
+		return ck
+	}
 	for i, n := range trCount {
 		if n == 0 {
 			add("C12:order:message-never-transitioned", fmt.Sprintf("outbound message #%d of %d never advanced the local state", i, len(enq)))
@@ -301,11 +315,6 @@ func checkEndpoint(name string, e *engine, tap []byte, peerGot [][]byte) (ck c12
 	}
 	if deq != len(enq) {
 		add("C12:order:dequeue-count", fmt.Sprintf("%d messages enqueued, %d dequeued", len(enq), deq))
-	}
-	select {
-	case err := <-e.errCh:
-		add("C12:conv:error-reported", fmt.Sprintf("ErrorChan: %v", err))
-	default:
 	}
 	// the wire
 	segs, perr := netsim.ParseSegs(tap)
@@ -513,10 +522,26 @@ teardown:
 		if ckB.maxAhead > res.maxAhead {
 			res.maxAhead = ckB.maxAhead
 		}
+		reported := false
+		for _, f := range res.findings {
+			reported = reported || f.key == "C12:conv:error-reported"
+		}
 		for _, p := range eps {
-			if p.sendEr != nil {
+			if p.sendEr != nil && !reported {
 				res.findings = append(res.findings, finding{key: "C12:conv:send-error", what: fmt.Sprintf("SendMessage failed in a conforming conversation: %v", p.sendEr), w: map[string]any{}})
 			}
+		}
+		if reported {
+			// the other endpoint's counts are a consequence of the cut-short conversation
+			var keep []finding
+			for _, f := range res.findings {
+				switch f.key {
+				case "C12:wire:message-count", "C12:order:message-never-transitioned", "C12:order:dequeue-count", "C12:conv:peer-handler-count":
+				default:
+					keep = append(keep, f)
+				}
+			}
+			res.findings = keep
 		}
 		// interleaving signature over both logs
 		evA, evB := eps[0].e.snapshot(), eps[1].e.snapshot()
